@@ -182,6 +182,7 @@ def parseEv (tok : String) : Option Ev :=
   let parts := ((tok.drop 1).toString.splitOn ":")
   match k, parts with
   | "O", [s] => (natOf s).map .opened
+  | "X", [s] => (natOf s).map .opened   -- the peer starts closing: informational
   | "S", [s, n] => do pure (.sub (← natOf s) (← natOf n))
   | "H", [s, n, k] => do pure (.hand (← natOf s) (← natOf n) (← natOf k))
   | "A", [s, n, r, m, no] => do
